@@ -6,6 +6,9 @@
 //   - TestStagedStoreMachine: diffdb root view + WithPrefix children/grandchildren over a real in-memory pebble DB;
 //   - TestDBMachine: db.DB / db.Reader / db.Batch / batchdb directly.
 //
+// In 70% of the histories the slices handed to the store follow an argument / result aliasing discipline (alias_test.go): shared
+// value slices, windows of shared buffers, read results fed into later writes, caller re-use of key buffers and Get results.
+//
 // Known defects (S7, S8, S9 of DESIGN §6) are probed once per process with their minimal inputs (defects.go); while a defect
 // is present AND listed as known, the generators avoid its trigger by construction so that the search continues behind it.
 package c12
@@ -248,6 +251,7 @@ type machine struct {
 	restored        bool
 	nOps            map[string]int
 	endedOnKnown    bool
+	al              aliasing // argument / result aliasing discipline (alias_test.go)
 }
 
 func (m *machine) history() string {
@@ -397,62 +401,77 @@ func (m *machine) opNewView() {
 	chain := append(append([][]byte{}, parent.chain...), p)
 	v := m.derive(chain)
 	// derive exactly as the caller would: from the parent handle
-	v.db = parent.db.WithPrefix(cp(p))
+	pa, psrc := m.al.key(m.t, p, "vp")
+	v.db = parent.db.WithPrefix(pa)
 	m.views = append(m.views, v)
-	m.log(fmt.Sprintf("%s = %s.WithPrefix(%x)", v.name(), parent.name(), p), "ok")
+	m.log(fmt.Sprintf("%s = %s.WithPrefix(%x)%s", v.name(), parent.name(), p, note(psrc)), "ok")
+	m.afterCall("WithPrefix")
 	m.nOps["withprefix"]++
 	evid.R.Label(fmt.Sprintf("view-depth-%d", len(chain)), 1)
 }
 
 func (m *machine) opSet() {
 	v := m.pickView()
-	k := pickKey(m.t, m.existingIn(v), "k")
-	val := genValue(m.t, "v")
+	k, ka, kdesc := m.pickKeyArg(v, "k", 3, 9)
+	va, vdesc := m.valueArg(v.full + string(k))
+	val := cp(va) // the value is what the slice holds at the time of the call
 	_, inStaged := m.model.Staged[v.full+string(k)]
 	_, inDB := m.model.Committed[v.full+string(k)]
-	v.db.Set(cp(k), cp(val))
+	v.db.Set(ka, va)
 	m.model.Set(v.full, string(k), string(val))
 	m.lastWriter[v.full+string(k)] = v.id
-	m.log(fmt.Sprintf("%s.Set(%x,%x)", v.name(), k, val), "ok")
+	op := fmt.Sprintf("%s.Set(%x,%x)%s", v.name(), k, val, note(kdesc, vdesc))
+	m.log(op, "ok")
+	m.afterCall(op)
 	m.nOps["set"]++
 	evid.R.Label(fmt.Sprintf("set-staged=%v-indb=%v", inStaged, inDB), 1)
 }
 
 func (m *machine) opDel() {
 	v := m.pickView()
-	k := pickKeyB(m.t, m.existingIn(v), "k", 1, 19)
+	k, ka, kdesc := m.pickKeyArg(v, "k", 1, 19)
 	_, inStaged := m.model.Staged[v.full+string(k)]
 	_, inDB := m.model.Committed[v.full+string(k)]
-	v.db.Del(cp(k))
+	v.db.Del(ka)
 	m.model.Del(v.full, string(k))
+	m.al.onDel(v.full + string(k))
 	m.lastWriter[v.full+string(k)] = v.id
-	m.log(fmt.Sprintf("%s.Del(%x)", v.name(), k), "ok")
+	op := fmt.Sprintf("%s.Del(%x)%s", v.name(), k, note(kdesc))
+	m.log(op, "ok")
+	m.afterCall(op)
 	m.nOps["del"]++
 	evid.R.Label(fmt.Sprintf("del-staged=%v-indb=%v", inStaged, inDB), 1)
 }
 
 func (m *machine) opGet() {
 	v := m.pickView()
-	k := pickKeyB(m.t, m.existingIn(v), "k", 2, 12)
+	k, ka, kdesc := m.pickKeyArg(v, "k", 2, 12)
 	has := rapid.Bool().Draw(m.t, "has")
 	want, wok := m.model.Get(v.full, string(k))
 	if m.restored {
 		m.ntRestoreRead = true
 	}
 	if has {
-		got := v.db.Has(cp(k))
-		m.log(fmt.Sprintf("%s.Has(%x)", v.name(), k), fmt.Sprint(got))
+		got := v.db.Has(ka)
+		op := fmt.Sprintf("%s.Has(%x)%s", v.name(), k, note(kdesc))
+		m.log(op, fmt.Sprint(got))
+		m.afterCall(op)
 		if got != wok {
 			m.fail("", "Has(%x) through %s = %v, model %v", k, v.name(), got, wok)
 		}
 		m.nOps["has"]++
 		return
 	}
-	got, ok := v.db.Get(cp(k))
-	m.log(fmt.Sprintf("%s.Get(%x)", v.name(), k), fmt.Sprintf("%x,%v", got, ok))
+	got, ok := v.db.Get(ka)
+	op := fmt.Sprintf("%s.Get(%x)%s", v.name(), k, note(kdesc))
+	m.log(op, fmt.Sprintf("%x,%v", got, ok))
 	if ok != wok || (ok && string(got) != want) {
 		m.fail("", "Get(%x) through %s = (%x,%v), model (%x,%v)", k, v.name(), got, ok, want, wok)
 	}
+	if ok {
+		m.holdGet(v, k, got, op)
+	}
+	m.afterCall(op)
 	m.nOps["get"]++
 	evid.R.Label(fmt.Sprintf("get-found=%v", ok), 1)
 }
@@ -491,10 +510,22 @@ func (m *machine) opRange() {
 		}
 	}
 	m.classifyScan(v, in, limit)
-	got := v.db.Range(cp(start), cp(end), limit, reverse)
+	// bound arguments: in the shared key buffer they lie next to each other, half of the time end before start
+	var sa, ea []byte
+	var ssrc, esrc string
+	if m.al.on && rapid.Bool().Draw(m.t, "end-first") {
+		ea, esrc = m.al.key(m.t, end, "end")
+		sa, ssrc = m.al.key(m.t, start, "start")
+		esrc += "<start"
+	} else {
+		sa, ssrc = m.al.key(m.t, start, "start")
+		ea, esrc = m.al.key(m.t, end, "end")
+	}
+	got := v.db.Range(sa, ea, limit, reverse)
 	want := m.model.Range(v.full, string(start), string(end), limit, reverse)
-	op := fmt.Sprintf("%s.Range(%x,%x,%d,rev=%v)", v.name(), start, end, limit, reverse)
+	op := fmt.Sprintf("%s.Range(%x,%x,%d,rev=%v)%s", v.name(), start, end, limit, reverse, note(kd("start", ssrc), kd("end", esrc)))
 	m.log(op, showKVs(got))
+	m.afterCall(op)
 	m.nOps["range"]++
 	evid.R.Label(fmt.Sprintf("range-limit=%v-rev=%v-results=%s", limit >= 0, reverse, sizeClass(len(want))), 1)
 	if bytes.Compare(start, end) > 0 {
@@ -510,6 +541,22 @@ func (m *machine) opRange() {
 		}
 		m.fail(sig, "%s = %s, model %s", op, showKVs(got), showModel(want))
 	}
+	m.holdScan(v, pairs(got), op)
+}
+
+func kd(name, src string) string {
+	if src == "" {
+		return ""
+	}
+	return name + "=" + src
+}
+
+func pairs(kvs []db.KeyValue) []kvPair {
+	out := make([]kvPair, len(kvs))
+	for i, e := range kvs {
+		out[i] = kvPair{e.Key(), e.Value()}
+	}
+	return out
 }
 
 func sizeClass(n int) string {
@@ -553,10 +600,12 @@ func (m *machine) opIterate() {
 		s8 = false
 	}
 	m.classifyScan(v, in, limit)
-	got := v.db.Iterate(cp(prefix), limit, reverse)
+	pa, psrc := m.al.key(m.t, prefix, "prefix")
+	got := v.db.Iterate(pa, limit, reverse)
 	want := m.model.Iterate(v.full, string(prefix), limit, reverse)
-	op := fmt.Sprintf("%s.Iterate(%x,%d,rev=%v)", v.name(), prefix, limit, reverse)
+	op := fmt.Sprintf("%s.Iterate(%x,%d,rev=%v)%s", v.name(), prefix, limit, reverse, note(kd("prefix", psrc)))
 	m.log(op, showKVs(got))
+	m.afterCall(op)
 	m.nOps["iterate"]++
 	evid.R.Label(fmt.Sprintf("iterate-limit=%v-rev=%v-results=%s", limit >= 0, reverse, sizeClass(len(want))), 1)
 	if !sameKVs(got, want) {
@@ -569,6 +618,7 @@ func (m *machine) opIterate() {
 		}
 		m.fail(sig, "%s = %s, model %s", op, showKVs(got), showModel(want))
 	}
+	m.holdScan(v, pairs(got), op)
 }
 
 func (m *machine) root() *diffdb.Database { return m.views[0].db }
@@ -599,6 +649,8 @@ func (m *machine) opSnapshot() {
 	id := v.db.Snapshot()
 	want := m.model.Snapshot(v.h)
 	m.log(fmt.Sprintf("%s.Snapshot()", v.name()), fmt.Sprint(id))
+	m.al.onSnapshot()
+	m.afterCall("Snapshot")
 	m.nOps["snapshot"]++
 	if v != m.views[0] {
 		evid.R.Label("snapshot-through-child-view", 1)
@@ -629,12 +681,14 @@ func (m *machine) opRestore() {
 	err := v.db.RestoreSnapshot(id)
 	ok := m.model.Restore(v.h, id)
 	m.log(fmt.Sprintf("%s.RestoreSnapshot(%d)", v.name(), id), fmt.Sprint(err))
+	m.afterCall("RestoreSnapshot")
 	m.nOps["restore"]++
 	if (err == nil) != ok {
 		m.fail("", "RestoreSnapshot(%d) err=%v, model exists=%v", id, err, ok)
 	}
 	if ok {
 		m.restored = true
+		m.al.onRestore()
 		m.lastWriter = map[string]int{}
 		// Engine callers obtain prefix views anew from the restored root (statemachine GetStore); handles derived before
 		// the restore keep the discarded overlay on the tree as given (S10, see notes/C12.md) and are not used any more.
@@ -655,6 +709,7 @@ func (m *machine) opDeleteSnapshot() {
 	v.db.DeleteSnapshot(id)
 	m.model.DeleteSnapshot(v.h, id)
 	m.log(fmt.Sprintf("%s.DeleteSnapshot(%d)", v.name(), id), "ok")
+	m.afterCall("DeleteSnapshot")
 	m.nOps["deletesnapshot"]++
 }
 
@@ -701,6 +756,10 @@ func (m *machine) opDryCommit() {
 	twin.Write(b)
 	post := dump(twin)
 	m.log("root.Commit(dry)", showDiff(diff))
+	m.afterCall("Commit(dry)")
+	if len(m.al.resetGrp) > 0 {
+		m.al.otherRead = true // every staged value is written and compared below
+	}
 	m.nOps["drycommit"]++
 	if !post.Equal(m.model.Staged) {
 		m.fail("", "dry Commit wrote %s, staged state is %s", showMap(post), showMap(m.model.Staged))
@@ -718,6 +777,7 @@ func (m *machine) opCommit() {
 	m.d.Write(batch)
 	post := dump(m.d)
 	m.log("root.Commit + db.Write", showDiff(diff))
+	m.afterCall("Commit")
 	m.nOps["commit"]++
 	if !post.Equal(m.model.Staged) {
 		m.fail("", "Commit wrote %s, staged state is %s", showMap(post), showMap(m.model.Staged))
@@ -748,6 +808,7 @@ func (m *machine) opCommit() {
 	m.diffs = append(m.diffs, dec)
 	m.dumps = append(m.dumps, pre)
 	m.model.Commit()
+	m.al.onCommit()
 	m.restored = false
 	m.freshRoot(true)
 }
@@ -792,11 +853,13 @@ func TestStagedStoreMachine(t *testing.T) {
 		m := &machine{t: t, d: d, rootP: rootP, model: kv.NewStore(initial), nOps: map[string]int{}, lastWriter: map[string]int{}}
 		m.views = []*view{{db: diffdb.New(d, cp(rootP)), full: string(rootP), id: 0, h: 0}}
 		m.nextID, m.nextH = 1, 1
+		m.initAliasing(rapid.IntRange(0, 9).Draw(t, "alias-discipline") < 7)
 		kinds := []string{"set", "set", "set", "del", "del", "del", "get", "get", "range", "range", "range", "range", "iterate", "iterate", "iterate",
 			"view", "view", "snapshot", "restore", "restore", "delsnap", "commit", "dry"}
 		t.Repeat(map[string]func(*rapid.T){
 			"op": func(t *rapid.T) {
 				m.t = t
+				m.al.begin()
 				switch rapid.SampledFrom(kinds).Draw(t, "kind") {
 				case "set":
 					m.opSet()
@@ -824,8 +887,9 @@ func TestStagedStoreMachine(t *testing.T) {
 			},
 		})
 		m.t = t
+		m.al.begin()
 		m.finish()
-		labels := []string{"staged-history"}
+		labels := append([]string{"staged-history"}, m.al.histLabels()...)
 		if m.ntDeleteLimited {
 			labels = append(labels, "nt-delete-then-limited-scan")
 		}
@@ -865,6 +929,7 @@ type dbMachine struct {
 	hist    []string
 	initial kv.Map
 	ntBound bool
+	ab      argBufs // layout / re-use of key, bound and prefix arguments (alias_test.go)
 }
 
 func (m *dbMachine) history() string {
@@ -882,6 +947,17 @@ func (m *dbMachine) fail(sig string, format string, a ...any) {
 		m.t.Skip("known finding " + sig)
 	}
 	m.t.Fatalf("%s\n%s", fmt.Sprintf(format, a...), m.history())
+}
+
+// argsIntact: no call changes its key / bound / prefix arguments (checked through their full capacity).
+func (m *dbMachine) argsIntact(op string) {
+	if !m.ab.on || !bufCheck {
+		return
+	}
+	evid.R.Label("alias-db-args-compared-after-call", int64(len(m.ab.tmp)))
+	if bad := m.ab.firstChanged(); bad != nil {
+		m.fail("", "%s wrote into an argument buffer of the caller: %s", op, bad.describe())
+	}
 }
 
 func (m *dbMachine) keys() []string {
@@ -920,15 +996,19 @@ func (m *dbMachine) read(s scanner, mm kv.Map, who string) {
 	switch rapid.SampledFrom([]string{"get", "iterate", "iterate", "iteratekey", "range", "range", "range"}).Draw(t, "read") {
 	case "get":
 		k := pickKey(t, ex, "k")
-		got, ok := s.Get(cp(k))
+		ka, ksrc := m.ab.key(t, k, "k")
+		got, ok := s.Get(ka)
+		m.log(fmt.Sprintf("%s.Get(%x)%s", who, k, note(kd("key", ksrc))), fmt.Sprintf("%x,%v", got, ok))
+		m.argsIntact("Get")
 		want, wok := mm[string(k)]
-		m.log(fmt.Sprintf("%s.Get(%x)", who, k), fmt.Sprintf("%x,%v", got, ok))
 		if ok != wok || (ok && string(got) != want) {
 			m.fail("", "%s.Get(%x) = (%x,%v), model (%x,%v)", who, k, got, ok, want, wok)
 		}
-		if e := s.Exist(cp(k)); e != wok {
+		// the same argument object again
+		if e := s.Exist(ka); e != wok {
 			m.fail("", "%s.Exist(%x) = %v, model %v", who, k, e, wok)
 		}
+		m.argsIntact("Exist")
 		evid.R.Label("db-get", 1)
 	case "iterate", "iteratekey":
 		prefix := pickKey(t, ex, "prefix")
@@ -938,13 +1018,16 @@ func (m *dbMachine) read(s scanner, mm kv.Map, who string) {
 		if properPrefixOfStored(mm, string(prefix)) {
 			m.ntBound = true
 		}
-		got := s.Iterate(cp(prefix), limit, reverse)
-		op := fmt.Sprintf("%s.Iterate(%x,%d,rev=%v)", who, prefix, limit, reverse)
+		pa, psrc := m.ab.key(t, prefix, "prefix")
+		got := s.Iterate(pa, limit, reverse)
+		op := fmt.Sprintf("%s.Iterate(%x,%d,rev=%v)%s", who, prefix, limit, reverse, note(kd("prefix", psrc)))
 		m.log(op, showKVs(got))
+		m.argsIntact(op)
 		if !sameKVs(got, want) {
 			m.fail("", "%s = %s, model %s", op, showKVs(got), showModel(want))
 		}
-		gk := s.IterateKey(cp(prefix), limit, reverse)
+		gk := s.IterateKey(pa, limit, reverse) // the same argument object again
+		m.argsIntact("IterateKey")
 		if !sameKeys(gk, want) {
 			m.fail("", "%s.IterateKey(%x,%d,rev=%v) = %x, model %s", who, prefix, limit, reverse, gk, showModel(want))
 		}
@@ -970,9 +1053,20 @@ func (m *dbMachine) read(s scanner, mm kv.Map, who string) {
 			m.ntBound = true
 		}
 		want := mm.Select(kv.Between(string(start), string(end)), limit, reverse)
-		got := s.IterateRange(cp(start), cp(end), limit, reverse)
-		op := fmt.Sprintf("%s.IterateRange(%x,%x,%d,rev=%v)", who, start, end, limit, reverse)
+		var sa, ea []byte
+		var ssrc, esrc string
+		if m.ab.on && rapid.Bool().Draw(t, "end-first") { // in the shared key buffer: end lies before start
+			ea, esrc = m.ab.key(t, end, "end")
+			sa, ssrc = m.ab.key(t, start, "start")
+			esrc += "<start"
+		} else {
+			sa, ssrc = m.ab.key(t, start, "start")
+			ea, esrc = m.ab.key(t, end, "end")
+		}
+		got := s.IterateRange(sa, ea, limit, reverse)
+		op := fmt.Sprintf("%s.IterateRange(%x,%x,%d,rev=%v)%s", who, start, end, limit, reverse, note(kd("start", ssrc), kd("end", esrc)))
 		m.log(op, showKVs(got))
+		m.argsIntact(op)
 		evid.R.Label(fmt.Sprintf("db-range-limit=%v-rev=%v-results=%s", limit >= 0, reverse, sizeClass(len(want))), 1)
 		if !sameKVs(got, want) {
 			sig := ""
@@ -994,6 +1088,7 @@ func TestDBMachine(t *testing.T) {
 		}
 		d := mainDB.with(initial)
 		m := &dbMachine{t: t, d: d, model: initial.Clone(), initial: initial}
+		m.ab.on = rapid.IntRange(0, 9).Draw(t, "alias-discipline") < 7
 		defer func() {
 			for _, r := range m.readers {
 				r.Close()
@@ -1003,17 +1098,22 @@ func TestDBMachine(t *testing.T) {
 		t.Repeat(map[string]func(*rapid.T){
 			"op": func(t *rapid.T) {
 				m.t = t
+				m.ab.begin()
 				switch rapid.SampledFrom(kinds).Draw(t, "kind") {
 				case "set":
 					k, v := pickKey(t, m.keys(), "k"), genValue(t, "v")
-					d.Set(cp(k), cp(v))
+					ka, ksrc := m.ab.key(t, k, "k")
+					d.Set(ka, cp(v))
 					m.model[string(k)] = string(v)
-					m.log(fmt.Sprintf("db.Set(%x,%x)", k, v), "ok")
+					m.log(fmt.Sprintf("db.Set(%x,%x)%s", k, v, note(kd("key", ksrc))), "ok")
+					m.argsIntact("db.Set")
 				case "del":
 					k := pickKey(t, m.keys(), "k")
-					d.Del(cp(k))
+					ka, ksrc := m.ab.key(t, k, "k")
+					d.Del(ka)
 					delete(m.model, string(k))
-					m.log(fmt.Sprintf("db.Del(%x)", k), "ok")
+					m.log(fmt.Sprintf("db.Del(%x)%s", k, note(kd("key", ksrc))), "ok")
+					m.argsIntact("db.Del")
 				case "batch":
 					b := d.NewBatch()
 					nops := rapid.IntRange(0, 6).Draw(t, "nops")
@@ -1124,6 +1224,7 @@ func TestDBMachine(t *testing.T) {
 					m.rmodels = append(m.rmodels[:i], m.rmodels[i+1:]...)
 					m.log(fmt.Sprintf("reader%d.Close()", i), "ok")
 				}
+				m.ab.release(t) // the caller re-uses its key / bound / prefix buffers after the call
 			},
 		})
 		m.t = t
